@@ -1,9 +1,11 @@
 import Driver.C02
+import Driver.C20
 open Driver
 
 def handle (line : String) : String :=
   match line.trimAscii.toString.splitOn " " with
   | "c02" :: args => c02 args
+  | "c20" :: args => c20 args
   | _ => "bad-op"
 
 partial def loop (h : IO.FS.Stream) (out : IO.FS.Stream) : IO Unit := do
